@@ -574,6 +574,10 @@ class Frac:
             return atoms.sqrt(self)
         if n == Q(1, 3):
             from . import atoms
+            # torch.pow of a NEGATIVE base with a fractional exponent is nan, not the real cube root; the model has no nan values, so that
+            # side of the fork is an engine gap (decided by the concrete twin on the real code), never silently the real root
+            if not self.is_const() and not decide(mkcond('ge', _strip_guards(self))):
+                raise atoms.EngineGap("pow(x, 1/3) of a negative base is nan in torch (no nan values in the model)")
             return atoms.cbrt(self)
         if isinstance(n, Q) and n.denominator in (4, 8) and n > 0:
             from . import atoms
@@ -699,6 +703,9 @@ class Frac:
 
 
 ZERO_GUARD = Poly({})
+
+def _strip_guards(f):
+    return Frac(f.num, f.den)
 
 
 def _coerce(o):
